@@ -260,6 +260,7 @@ inductive Item where
   | armed                                  -- FileSaver.__init__ returned: from now on a failure closes the saver
   | append (ci : ChunkInfo)                -- md["chunks"].append(chunk_info)
   | submit (i : Nat) (ops : List Op)       -- start a chunk write
+  | markUnreg                              -- save_from: the future just submitted is not yet in `pending`
   | join                                   -- the write just started was synchronous: its exception is the saver's
   | poll                                   -- save_from: `f.result()` of the futures that are done
   | waitAll                                -- save_from: wait(pending); f.result()
@@ -295,6 +296,8 @@ structure Cfg where
   md : Meta
   prog : List Item
   workers : List Worker
+  orphans : List Worker  -- chunk writes nobody waits for (submitted, then `save_from` failed before they reached `pending`)
+  unreg : Bool           -- the write submitted last is not yet in `pending`
   term : Bool            -- a failure of the saver thread is terminal (inside __init__, inside the handler, after closed=True)
   handling : Bool        -- the saver is being closed by an exception handler
   out : Outcome
@@ -318,15 +321,16 @@ def forkOps (i : Nat) (c : Chunk) : List Op :=
 def flushItems (p : Ph) : List Item := [.flushOpen p, .flushWrite p, .flushClose p]
 
 /-- `Saver.save(chunk, i)` as seen by the saver thread; `recheck = false` is the OLD protocol (D3: done futures
-dropped unchecked) -/
+dropped unchecked).  Inlined (forked) savers are not driven by `save_from` at all:
+`ParallelSourcePlugin.do_compute` saves inside the pool worker, nobody on the saver's side looks at the result (D35). -/
 def chunkItems (v : Variant) (recheck : Bool) (i : Nat) (c : Chunk) : List Item :=
   match v with
   | .serial =>
     (if c.rows.isEmpty then [] else [.submit i (writeOps i c.rows), .join]) ++ [.append (infoOf i c)] ++ flushItems .chunk
   | .executor =>
-    (if c.rows.isEmpty then [] else [.submit i (writeOps i c.rows)]) ++ [.append (infoOf i c)] ++ flushItems .chunk
+    (if c.rows.isEmpty then [] else [.submit i (writeOps i c.rows), .markUnreg]) ++ [.append (infoOf i c)] ++ flushItems .chunk
       ++ (if recheck then [.poll] else [])
-  | .forked => [.submit i (forkOps i c)] ++ (if recheck then [.poll] else [])
+  | .forked => [.submit i (forkOps i c)]
 
 def chunksItems (v : Variant) (recheck : Bool) : Nat → List Chunk → List Item
   | _, [] => []
@@ -356,13 +360,13 @@ deriving DecidableEq, Repr, Inhabited
 
 def saverProg (v : Variant) (pr : Proto) (cs : List Chunk) : List Item :=
   (if pr.atomicRemove then initItems else initItemsOld) ++ chunksItems v pr.recheck 0 cs
-    ++ (if pr.recheck && v != .serial then [.waitAll] else []) ++ closeItems
+    ++ (if pr.recheck && v == .executor then [.waitAll] else []) ++ closeItems
 
 def handlerItems (h : HandlerSpec) : List Item :=
   chunksItems h.variant true h.extraStart h.extra ++ closeItems
 
 def initCfg (fs : FS) (v : Variant) (pr : Proto) (cs : List Chunk) (h : HandlerSpec) : Cfg :=
-  { fs, md := ⟨[], false, false⟩, prog := saverProg v pr cs, workers := [], term := true, handling := false,
+  { fs, md := ⟨[], false, false⟩, prog := saverProg v pr cs, workers := [], orphans := [], unreg := false, term := true, handling := false,
     out := .running, failed := false, lost := false, spec := h }
 
 /-- the scheduler's choices -/
@@ -374,6 +378,8 @@ inductive Act where
   | rmFail (n : Name)    -- … which raises
   | wrk (k : Nat)        -- the k-th chunk write performs its next operation
   | wrkFail (k : Nat)    -- … which raises
+  | orph (k : Nat)       -- the k-th un-awaited chunk write performs its next operation
+  | orphFail (k : Nat)   -- … which raises
 deriving DecidableEq, Repr, Inhabited
 
 /-- the saver was closed by the normal path (`closed = True` set by `Saver.close` without an exception around) -/
@@ -385,6 +391,11 @@ def Cfg.fail (c : Cfg) : Cfg :=
   if c.term || c.spec.abandoned then
     if c.spec.lostClose && c.closedNormally then { c with prog := [], out := .success, lost := true }
     else { c with prog := [], out := .raised }
+  else if c.unreg then
+    -- `save_from` failed between `executor.submit` and the end of that iteration's poll: the future never reached
+    -- `pending`, so the handler's `close(wait_for=pending)` does not wait for it
+    { c with prog := handlerItems c.spec, term := true, handling := true, unreg := false,
+             workers := c.workers.dropLast, orphans := c.orphans ++ c.workers.getLast?.toList }
   else { c with prog := handlerItems c.spec, term := true, handling := true }
 
 /-- an FS operation of the saver thread raised -/
@@ -430,6 +441,21 @@ def headOp (c : Cfg) : Option Op :=
   | .readInfo i :: _ => some (.read .temp (.cmeta i))
   | _ => none
 
+/-- steps of the un-awaited chunk writes -/
+def stepOrph (c : Cfg) (k : Nat) (inject : Bool) : Option Cfg :=
+  match c.orphans[k]? with
+  | some w =>
+    match w.st, w.ops with
+    | .running, o :: rest =>
+      if inject then some { c with orphans := c.orphans.set k { w with ops := [], st := .failed } }
+      else
+        match apply c.fs o with
+        | .ok fs' =>
+          some { c with fs := fs', orphans := c.orphans.set k { w with ops := rest, st := if rest.isEmpty then .ok else .running } }
+        | .error _ => some { c with orphans := c.orphans.set k { w with ops := [], st := .failed } }
+    | _, _ => none
+  | none => none
+
 /-- one step; `none` = the action is not enabled -/
 def step (c : Cfg) : Act → Option Cfg
   | .sav =>
@@ -459,12 +485,16 @@ def step (c : Cfg) : Act → Option Cfg
     | .append ci :: rest => some { c with prog := rest, md := { c.md with chunks := c.md.chunks ++ [ci] } }
     | .submit i ops :: rest =>
       some { c with prog := rest, workers := c.workers ++ [⟨i, ops, if ops.isEmpty then .ok else .running⟩] }
+    | .markUnreg :: rest => some { c with prog := rest, unreg := true }
     | .join :: rest =>
       match lastSt c.workers with
       | some .running => none
       | some .failed => some c.fail
       | _ => some { c with prog := rest }
-    | .poll :: rest => if anyFailed c.workers then some c.fail else some { c with prog := rest }
+    | .poll :: rest =>
+      -- `f.result()` of the futures in `pending` that are done; the one just submitted joins `pending` afterwards
+      if anyFailed (if c.unreg then c.workers.dropLast else c.workers) then some c.fail
+      else some { c with prog := rest, unreg := false }
     | .waitAll :: rest =>
       if anyRunning c.workers then none
       else if anyFailed c.workers then some c.fail else some { c with prog := rest }
@@ -478,7 +508,11 @@ def step (c : Cfg) : Act → Option Cfg
       match c.fs.temp.bind (·.get (.cmeta i)) with
       | some (.info ci) => some { c with prog := rest, md := { c.md with chunks := c.md.chunks ++ [ci] } }
       | _ => some c.opFail
-    | .finish :: rest => some { c with prog := rest, out := if c.handling then .raised else .success }
+    | .finish :: rest =>
+      -- inlined savers: the caller's outcome is decided by the mailbox readers, which re-raise the exception of
+      -- a failed `do_compute` future; nobody on the saver's side looks at it
+      some { c with prog := rest,
+                    out := if c.handling || (c.spec.variant == .forked && anyFailed c.workers) then .raised else .success }
   | .savFail =>
     match c.prog with
     | [] => none
@@ -524,6 +558,8 @@ def step (c : Cfg) : Act → Option Cfg
       | .running, _ :: _ => some { c with failed := true, workers := c.workers.set k { w with ops := [], st := .failed } }
       | _, _ => none
     | none => none
+  | .orph k => stepOrph c k false
+  | .orphFail k => stepOrph c k true
 
 /-- run a list of actions; `none` if one of them is not enabled -/
 def run (c : Cfg) : List Act → Option Cfg
@@ -534,7 +570,7 @@ def run (c : Cfg) : List Act → Option Cfg
     | none => none
 
 /-- nothing more will happen: the saver is through and no chunk write is in flight -/
-def Cfg.terminal (c : Cfg) : Bool := c.prog.isEmpty && !anyRunning c.workers
+def Cfg.terminal (c : Cfg) : Bool := c.prog.isEmpty && !anyRunning c.workers && !anyRunning c.orphans
 
 /-! ## `make` on top of the saver -/
 
@@ -598,7 +634,7 @@ def autoAct (o : RmOrder) (c : Cfg) : Option Act :=
   | some k => some (.wrk k)
   | none =>
     match c.prog with
-    | [] => none
+    | [] => (c.orphans.findIdx? (·.st == .running)).map .orph
     | .unlinks d _ :: _ =>
       match c.fs.dir d with
       | some (e :: rest) => (pickRm o (e :: rest)).map .rm
@@ -617,11 +653,13 @@ def actOp (c : Cfg) : Act → Option Op
     | .unlinks d _ :: _ => some (.unlink d n)
     | _ => none
   | .wrk k | .wrkFail k => (c.workers[k]?).bind (·.ops.head?)
+  | .orph k | .orphFail k => (c.orphans[k]?).bind (·.ops.head?)
 
 def failOf : Act → Act
   | .sav => .savFail
   | .rm n => .rmFail n
   | .wrk k => .wrkFail k
+  | .orph k => .orphFail k
   | a => a
 
 inductive FaultKind where
@@ -636,14 +674,16 @@ structure Fault where
   kind : FaultKind
 deriving DecidableEq, Repr, Inhabited
 
-def abortNow (ft : Option Fault) (c : Cfg) (nops : Nat) : Bool :=
-  match ft with
-  | some f =>
-    -- the exception arrives between two calls into the saver: the bookkeeping that ends the current call
-    -- (`armed`: the constructor returns; `poll`: `save_from` looks at its futures) still happens
-    f.kind == .abort && nops == f.k && !c.handling && !c.prog.isEmpty
-      && c.prog.head? != some .armed && c.prog.head? != some .poll
-  | none => false
+/-- the operation fault (exception at / death before / death after), if any, that is due when `nops` operations
+have been issued -/
+def dueFault (fts : List Fault) (nops : Nat) : Option Fault := fts.find? (fun f => f.k == nops && f.kind != .abort)
+
+/-- is an exception thrown into the saver thread from elsewhere when `nops` operations have been issued? -/
+def abortNow (fts : List Fault) (c : Cfg) (nops : Nat) : Bool :=
+  -- the exception arrives between two calls into the saver: the bookkeeping that ends the current call
+  -- (`armed`: the constructor returns; `poll`: `save_from` looks at its futures) still happens
+  fts.any (fun f => f.k == nops && f.kind == .abort) && !c.handling && !c.prog.isEmpty
+    && c.prog.head? != some .armed && c.prog.head? != some .poll && c.prog.head? != some .markUnreg
 
 /-- result of a scheduled run: configuration, operations issued (newest first), did the process die -/
 structure RunResult where
@@ -652,13 +692,13 @@ structure RunResult where
   died : Bool
 deriving Repr, Inhabited
 
-/-- eager execution with at most one fault -/
-def runAuto (o : RmOrder) (ft : Option Fault) : Nat → Cfg → List Op → RunResult
+/-- eager execution with faults at given operation indices (at most one operation fault and one abort per index) -/
+def runAuto (o : RmOrder) (fts : List Fault) : Nat → Cfg → List Op → RunResult
   | 0, c, log => ⟨c, log, false⟩
   | fuel + 1, c, log =>
-    if abortNow ft c log.length then
+    if abortNow fts c log.length then
       match step c .abort with
-      | some c' => runAuto o ft fuel c' log
+      | some c' => runAuto o fts fuel c' log
       | none => ⟨c, log, false⟩
     else
     match autoAct o c with
@@ -668,14 +708,14 @@ def runAuto (o : RmOrder) (ft : Option Fault) : Nat → Cfg → List Op → RunR
         | some op => op :: log
         | none => log
       let hit : Option FaultKind :=
-        match ft, actOp c a with
-        | some f, some _ => if log.length = f.k then some f.kind else none
+        match dueFault fts log.length, actOp c a with
+        | some f, some _ => some f.kind
         | _, _ => none
       match hit with
       | some .dieBefore => ⟨c, log, true⟩
       | some .exc =>
         match step c (failOf a) with
-        | some c' => runAuto o ft fuel c' log'
+        | some c' => runAuto o fts fuel c' log'
         | none => ⟨c, log, false⟩
       | some .dieAfter =>
         match step c a with
@@ -683,7 +723,7 @@ def runAuto (o : RmOrder) (ft : Option Fault) : Nat → Cfg → List Op → RunR
         | none => ⟨c, log, false⟩
       | some .abort | none =>
         match step c a with
-        | some c' => runAuto o ft fuel c' log'
+        | some c' => runAuto o fts fuel c' log'
         | none => ⟨c, log, false⟩
 
 /-- enough fuel for every run of a program of this size -/
@@ -697,13 +737,13 @@ deriving DecidableEq, Repr, Inhabited
 
 /-- one attempt at making the data from file-system state `fs` -/
 def attempt (fs : FS) (v : Variant) (pr : Proto) (cs : List Chunk) (h : HandlerSpec) (o : RmOrder)
-    (ft : Option Fault) : RunResult × Result :=
+    (fts : List Fault) : RunResult × Result :=
   let c0 := initCfg fs v pr cs h
   match start fs with
   | .stored => (⟨{ c0 with prog := [], out := .success }, [], false⟩, .stored)
   | .corrupted => (⟨{ c0 with prog := [], out := .raised }, [], false⟩, .corrupted)
   | .save =>
-    let r := runAuto o ft (fuelFor c0) c0 []
+    let r := runAuto o fts (fuelFor c0) c0 []
     (r, if r.died then .died else
         match r.cfg.out with
         | .success => .success
